@@ -50,10 +50,12 @@ def model(ver, s, base_of):
     return {"CVSS%sRHScoreDoesNotMatch" % n}
 
 
-def check_rh_string(P, ver, s, kind="?"):
+def check_rh_string(P, ver, s, kind="?", preceded_by=None):
     L = lib()
     P.evaluations += 1
     case = {"ver": ver, "rh": s, "kind": kind}
+    if preceded_by:
+        case["preceded_by"] = preceded_by  # RH strings parsed earlier in the same process (history witness)
 
     def base_of(rest):
         ok, o = obs.call(L.CLS[ver], rest)
@@ -121,7 +123,9 @@ def check_object(P, ver, s):
 
 def check_case(P, case):
     if "rh" in case:
-        check_rh_string(P, case["ver"], case["rh"], case.get("kind", "?"))
+        for earlier in case.get("preceded_by") or []:
+            obs.call(lib().CLS[case["ver"]].from_rh_vector, earlier)
+        check_rh_string(P, case["ver"], case["rh"], case.get("kind", "?"), case.get("preceded_by"))
     else:
         check_object(P, case["ver"], case["vector"])
 
@@ -172,10 +176,12 @@ def shard(P, ver, idx, n, seed):
         o, sc = r
         if not obs.is_wellformed_score(sc[0]):
             continue
+        own = ["%.1f/" % sc[0] + s]  # parsed by the round-trip check above: part of every later case's history
+        obs.call(lib().CLS[ver].from_rh_vector, own[0])
         for kind, head in heads_for(sc):
             rh = head + "/" + s
             P.dist(rh)
-            check_rh_string(P, ver, rh, kind)
+            check_rh_string(P, ver, rh, kind, own)
         # missing separator / head forms
         for kind, rh in (("no-slash", s.replace("/", "")), ("no-slash", "%.1f" % sc[0]), ("no-slash", ""), ("no-head", "/" + s),
                          ("double-slash", "%.1f//" % sc[0] + s), ("head-only", "%.1f/" % sc[0]), ("vector-only", s),
